@@ -1108,6 +1108,16 @@ where
         heights
     };
 
+    // The tallest opened matrix must fit the height implied by the FRI schedule; otherwise
+    // `precompute_evaluation_points` would slice `index_bits` out of range.
+    if let Some(&h_max) = unique_heights_desc.first()
+        && (h_max > log_global_max_height || unique_heights_desc.last() == Some(&0))
+    {
+        return Err(VerificationError::InvalidProofShape(format!(
+            "opened matrix heights {unique_heights_desc:?} do not fit the FRI schedule (log_max_height {log_global_max_height})"
+        )));
+    }
+
     let eval_points = if unique_heights_desc.is_empty() {
         BTreeMap::new()
     } else {
